@@ -538,6 +538,40 @@ Fixpoint under_caller (rows : list jobrow) (fuel : nat) (j : jid) : bool :=
   end.
 
 (* ====================================================================== *)
+(** * Part 4: the context the sub-workflow sees                            *)
+(* ====================================================================== *)
+(** Contexts are flat key -> value maps here (merge_dicts also merges nested dicts; the keys the
+    harness uses are flat).  [ctx_merge a b]: later wins, as merge_dicts([a, b]). *)
+Definition ctx := list (nat * Z).
+Fixpoint ctx_get (c : ctx) (k : nat) : option Z :=
+  match c with [] => None | (k', v) :: r => if Nat.eqb k k' then Some v else ctx_get r k end.
+Definition later_wins (a b : nat -> option Z) : nat -> option Z :=
+  fun k => match b k with Some v => Some v | None => a k end.
+
+(** Scheduler.run: Execution(execution_id, context=merge_dicts([<first>, <second>])) *)
+Inductive ctx_order := ConfigThenRun | RunThenConfig.
+Definition shipped_ctx_order : ctx_order := ConfigThenRun.
+
+(** context of a new execution: the scheduler's config-level context and the context given to run() *)
+Definition run_context (o : ctx_order) (config run : nat -> option Z) : nat -> option Z :=
+  match o with ConfigThenRun => later_wins config run | RunThenConfig => later_wins run config end.
+
+(** Job.get_context: the parent's context (the execution's for a root job) overridden by the job's
+    own update_context; [overrides] lists them from the root job down to the job *)
+Fixpoint job_context (base : nat -> option Z) (overrides : list ctx) : nat -> option Z :=
+  match overrides with
+  | [] => base
+  | o :: r => job_context (later_wins base (ctx_get o)) r
+  end.
+
+(** what the jobs of the sub-scheduler start from, given the context [fwd] that subrun forwards
+    (run_config["context"] = parent_job.get_context()) and the same config (forwarded too):
+    new execution: sub_scheduler.run(expr, context=fwd);
+    extending: Execution(<id>) has no context, the stand-in parent job carries _context_override=fwd *)
+Definition sub_new_context (o : ctx_order) (config : nat -> option Z) (fwd : nat -> option Z) := run_context o config fwd.
+Definition sub_extend_context (fwd : nat -> option Z) : nat -> option Z := later_wins (fun _ => None) fwd.
+
+(* ====================================================================== *)
 (** * Decidable equalities used by the correspondence cases (harness)      *)
 (* ====================================================================== *)
 Definition opt_eqb {A} (e : A -> A -> bool) (a b : option A) : bool :=
